@@ -59,6 +59,23 @@ func (c *FnCtx) contractParamDummies(fc *FuncContract, fn *ssa.Function) (map[st
 
 // sigOfKey finds the signature for an interface-method key "(pkg.Iface).Method" or a named func type "pkg.T".
 func (e *Engine) sigOfKey(key string) (*types.Signature, types.Type) {
+	if strings.HasPrefix(key, "param:") {
+		rest := key[6:]
+		i := strings.LastIndex(rest, ".")
+		if i < 0 {
+			return nil, nil
+		}
+		if fn := e.funcs[rest[:i]]; fn != nil {
+			for _, p := range fn.Params {
+				if p.Name() == rest[i+1:] {
+					if sig, ok := p.Type().Underlying().(*types.Signature); ok {
+						return sig, nil
+					}
+				}
+			}
+		}
+		return nil, nil
+	}
 	if strings.HasPrefix(key, "field:") {
 		parts := strings.Split(key[6:], ".")
 		if len(parts) != 3 {
